@@ -330,7 +330,8 @@ def rand_name(rng) -> str:
         return respell(rng, rng.choice(COMMON))
     if c < 9:
         return "".join(rng.choice(TCHARS) for _ in range(rng.randrange(1, 12)))
-    return rng.choice(["_host", "_udn", "_port", "_timestamp", "_location_original", "_Remote_Addr", "_source"])
+    return rng.choice(["_host", "_udn", "_port", "_timestamp", "_location_original", "_Remote_Addr", "_source",
+                       "_HOST", "_Host", "_UDN", "_Udn", "_PORT", "_LOCATION_ORIGINAL", "LOCATION", "location"])
 
 
 def rand_text(rng, n: int) -> str:
@@ -523,6 +524,11 @@ def history(rng, depth: int, with_fill: bool) -> List[list]:
 
 
 CORPUS = [
+    # F01a: a metadata name received in two spellings used to override the decoder's own value (`_host`, `_udn`)
+    {"ops": [["dec", 0, {"sl": "HTTP/1.1 200 OK", "hs": [["_udn", "a"], ["_UDN", "b"], ["_host", "x"], ["_HOST", "y"], ["ST", "t"],
+                                                         ["USN", "uuid:real::t"], ["LOCATION", "http://1.2.3.4/"]]}, ["9.9.9.9", 1900], None],
+             ["recv", 1, {"sl": "NOTIFY * HTTP/1.1", "hs": [["_Host", "x"], ["_hOST", "y"], ["_port", "1"], ["_PORT", "2"],
+                                                           ["_remote_addr", "r"], ["_REMOTE_ADDR", "s"]]}, ["fe80::2", 1900, 0, 3], None]]},
     # design-time probes: duplicate spellings, metadata-like names, scoped source with adjusted / odd locations
     {"ops": [["dec", 0, {"sl": "NOTIFY * HTTP/1.1", "hs": [["Key", "1"], ["KEY", "2"], ["LOCATION", "http://[fe80::1]:80/x?"],
                                                            ["usn", "uuid:a::b"], ["USN", "zz"]]}, ["fe80::2", 1900, 0, 3], ["1.1.1.1", 5]]]},
